@@ -463,6 +463,21 @@ func (w *World) parseUintTerm(t *Term, base, bits Value) Value {
 	if bs == 0 {
 		bs = 64
 	}
+	if org, ok := w.fmtOrigin[t.S]; ok {
+		// the text was produced by FormatUint(org): the parse gives org back when it fits
+		var v Value = org
+		if org.Sort.W < 64 {
+			v = w.convInt(org, intInfo{org.Sort.W, false}, intInfo{64, false})
+		}
+		if bs >= 64 || bs == 0 {
+			return Tuple{v, Iface{}}
+		}
+		maxv := int64(uint64(1)<<uint(bs) - 1)
+		if w.branch(w.binop(token.LEQ, types.Typ[types.Uint64], v, maxv)) {
+			return Tuple{v, Iface{}}
+		}
+		return Tuple{maxv, w.eng.makeError(w, "strconv.ParseUint: value out of range", nil)}
+	}
 	// str.to_int returns -1 unless s consists only of digits (and is non-empty)
 	n := "(str.to_int " + t.S + ")"
 	var max string
